@@ -206,50 +206,57 @@ impl C02 {
 				return v;
 			}
 		}
-		// the honest recipient's recorded output
+		// the honest recipient's recorded output (the slate may have been received into
+		// several accounts of the recipient: the reply that was finalized came from one)
 		if let Some(pe) = deal.payee {
 			if run.ex.world.is_open(pe) {
 				let rsnap = run.ex.world.snap(pe);
-				let re = rsnap.txs.iter().find(|t| {
-					t.tx_slate_id == Some(deal.id)
-						&& (t.tx_type == TxLogEntryType::TxReceived)
-				});
-				if let Some(re) = re {
-					let rkc = &run.ex.world.wallets[pe].kc;
+				let rkc = &run.ex.world.wallets[pe].kc;
+				let entries: Vec<_> = rsnap
+					.txs
+					.iter()
+					.filter(|t| t.tx_slate_id == Some(deal.id) && t.tx_type == TxLogEntryType::TxReceived)
+					.collect();
+				let mut judged = 0;
+				let mut good = false;
+				let mut last_detail = String::new();
+				for re in &entries {
 					let outs: Vec<_> = rsnap
 						.outputs
 						.iter()
 						.filter(|o| o.tx_log_entry == Some(re.id) && o.root_key_id == re.parent_key_id)
 						.collect();
-					if outs.len() == 1 {
-						let rc = rkc
-							.commit(outs[0].value, &outs[0].key_id, SwitchCommitmentType::Regular)
-							.unwrap();
-						if outs[0].value != deal.amount || !tx_out.contains(&rc.as_ref().to_hex()) {
-							v.push(run.viol(
-								"exact",
-								"recipient_output_wrong",
-								format!(
-									"wallet {}: recipient recorded {} (agreed {}), in tx: {}",
-									w,
-									outs[0].value,
-									deal.amount,
-									tx_out.contains(&rc.as_ref().to_hex())
-								),
-							));
-							return v;
-						}
-						if tx_out.len() != change.len() + 1 {
-							v.push(run.viol(
-								"exact",
-								"extra_outputs",
-								format!("wallet {}: transaction has {} outputs, expected change {} + 1", w, tx_out.len(), change.len()),
-							));
-							return v;
-						}
-					} else {
-						run.cov.not_judged("recipient_record_not_unique");
+					if outs.len() != 1 {
+						continue;
 					}
+					judged += 1;
+					let rc = rkc
+						.commit(outs[0].value, &outs[0].key_id, SwitchCommitmentType::Regular)
+						.unwrap();
+					let in_tx = tx_out.contains(&rc.as_ref().to_hex());
+					if outs[0].value == deal.amount && in_tx {
+						good = true;
+					} else {
+						last_detail = format!(
+							"wallet {}: recipient recorded {} (agreed {}), in tx: {}",
+							w, outs[0].value, deal.amount, in_tx
+						);
+					}
+				}
+				if judged == 0 && !entries.is_empty() {
+					run.cov.not_judged("recipient_record_not_unique");
+				}
+				if judged > 0 && !good {
+					v.push(run.viol("exact", "recipient_output_wrong", last_detail));
+					return v;
+				}
+				if good && tx_out.len() != change.len() + 1 {
+					v.push(run.viol(
+						"exact",
+						"extra_outputs",
+						format!("wallet {}: transaction has {} outputs, expected change {} + 1", w, tx_out.len(), change.len()),
+					));
+					return v;
 				}
 			}
 		}
